@@ -181,16 +181,15 @@ def check(tier: str) -> Result:
             res.add("C16.R3", ci.loc(), f"specs.{n}.__eq__", "own __eq__ comparing all constructor parameters", False,
                     f"inherits {inh.cls.name if inh else None}.__eq__, which ignores {sorted(set(params))}")
             continue
-        compared, guard = eq_facts(eq)
+        compared, guard = eq_facts_vfg(tree, ci, eq)
         missing = [p for p in params if p not in compared]
         res.add("C16.R3", eq.loc(), f"specs.{n}.__eq__", "equality compares every constructor parameter", not missing,
                 f"compares {sorted(compared)}" if not missing else f"does not compare {missing}: specs differing only there are equal")
         res.add("C16.R3", eq.loc(), f"specs.{n}.__eq__", "equality guards on its own class", guard == n, f"isinstance(other, {guard})")
         arr = array_kind_attrs(tree, ci)
-        for attr, cmpn in sorted(compared.items()):
+        for attr, okr in sorted(compared.items()):
             if attr in arr:
-                okr = isinstance(cmpn, ast.Call) or is_reduced(eq, cmpn)
-                res.add("C16.R3", f"{m.relpath}:{cmpn.lineno}", f"specs.{n}.__eq__", f"array comparison self.{attr} == other.{attr} is reduced before truth-value use", okr,
+                res.add("C16.R3", eq.loc(), f"specs.{n}.__eq__", f"array comparison self.{attr} == other.{attr} is reduced before truth-value use", okr,
                         "reduced with all()/array_equal" if okr else "an element-wise array comparison is used directly as a truth value: raises for non-scalar values (sibling classes reduce it)")
     # ------------------------------------------------------------------ R4 validate
     av = classes["Array"].methods.get("validate")
@@ -200,49 +199,64 @@ def check(tier: str) -> Result:
     raises = any(isinstance(n, ast.Raise) for n in fv.node.body) or any(isinstance(n, ast.Raise) for n in ast.walk(fv.node))
     res.add("C16.R4", fv.loc(), "specs.Array._fail_validation", "the failure helper raises unconditionally",
             raises and isinstance(fv.node.body[-1], ast.Raise), "last statement is raise" if raises else "no raise")
+    vv = VFG(tree, Model(tree))
+    arr_c = classes["Array"]
+    self_a = mk("self", arr_c.qual)
+    val = mk("param", av.qual, av.params[1])
+    vv.apply_func(av, self_a, arr_c, [val], {}, None, None)
     tests = {}
-    for n in ast.walk(av.node):
-        if isinstance(n, ast.If) and isinstance(n.test, ast.Compare) and len(n.test.ops) == 1:
-            l, r = n.test.left, n.test.comparators[0]
-            if self_attr(l) and not self_attr(r):
-                l, r = r, l
-            la = l.attr if isinstance(l, ast.Attribute) else None
-            ra = self_attr(r)
-            fails = any(isinstance(x, ast.Call) and self_attr(x.func) == "_fail_validation" for st in n.body for x in ast.walk(st)) or \
-                any(isinstance(st, ast.Raise) for st in n.body)
-            if la and la == ra:
-                tests[la] = (type(n.test.ops[0]).__name__, fails)
+    for e in vv.events:
+        if e.kind == "py_branch" and e.name == "if" and e.func is av and isinstance(e.node, ast.If):
+            t = uncopy(e.target)
+            fails = any(isinstance(x, ast.Call) and self_attr(x.func) == "_fail_validation" for st in e.node.body for x in ast.walk(st)) or \
+                any(isinstance(st, ast.Raise) for st in e.node.body)
+            if t.kind == "cmp" and t.args[0] in ("!=", "=="):
+                sides = [t.args[1], t.args[2]]
+                names = set()
+                for x in sides:
+                    if x.kind == "attr":
+                        names.add(x.args[1].lstrip("_"))
+                if len(names) == 1 and any(x.kind == "attr" and x.args[0] is self_a for x in sides) and any(x.kind == "attr" and contains(x, val) for x in sides):
+                    tests[names.pop()] = (t.args[0], fails)
     for attr in ("shape", "dtype"):
         t = tests.get(attr)
-        res.add("C16.R4", av.loc(), "specs.Array.validate", f"rejects when value.{attr} != self.{attr}", t == ("NotEq", True), f"test {t}")
+        res.add("C16.R4", av.loc(), "specs.Array.validate", f"rejects when value.{attr} != self.{attr}", t == ("!=", True), f"test {t}")
     bv = classes["BoundedArray"].methods.get("validate")
     if bv is None:
         raise AnalysisError("BoundedArray.validate not found")
-    sup = any(isinstance(n, ast.Call) and isinstance(n.func, ast.Attribute) and n.func.attr == "validate" and isinstance(n.func.value, ast.Call)
-              and isinstance(n.func.value.func, ast.Name) and n.func.value.func.id == "super" for n in ast.walk(bv.node))
-    res.add("C16.R4", bv.loc(), "specs.BoundedArray.validate", "runs the parent shape/dtype validation first", sup, "super().validate(value) called" if sup else "parent validation skipped")
+    vb = VFG(tree, Model(tree))
+    b_c = classes["BoundedArray"]
+    self_b = mk("self", b_c.qual)
+    valb = mk("param", bv.qual, bv.params[1])
+    vb.apply_func(bv, self_b, b_c, [valb], {}, None, None)
+    sup = any(e.kind == "py_branch" and e.func is av for e in vb.events)
+    res.add("C16.R4", bv.loc(), "specs.BoundedArray.validate", "runs the parent shape/dtype validation first", sup, "Array.validate is executed" if sup else "parent validation skipped")
     found = {}
-    cond = None
-    for n in ast.walk(bv.node):
-        if isinstance(n, ast.If):
-            cond = n
-            for c in ast.walk(n.test):
-                if isinstance(c, ast.Compare) and len(c.ops) == 1:
-                    b = self_attr(c.comparators[0])
-                    opn = type(c.ops[0]).__name__
-                    other = c.left
-                    if b not in ("minimum", "maximum"):
-                        # bound written on the left: normalise to `value OP bound`
-                        b = self_attr(c.left)
-                        other = c.comparators[0]
-                        opn = {"Lt": "Gt", "Gt": "Lt", "LtE": "GtE", "GtE": "LtE"}.get(opn, opn)
-                    if b in ("minimum", "maximum") and isinstance(other, ast.Name):
-                        found[b] = (opn, is_any_reduced(n.test, c))
-    fails = cond is not None and (any(isinstance(x, ast.Call) and self_attr(x.func) == "_fail_validation" for st in cond.body for x in ast.walk(st))
-                                  or any(isinstance(st, ast.Raise) for st in cond.body))
-    is_or = cond is not None and isinstance(cond.test, ast.BoolOp) and isinstance(cond.test.ops if False else cond.test.op, ast.Or)
+    fails = is_or = False
+    from ..normal import disjuncts
+    for e in vb.events:
+        if e.kind == "py_branch" and e.name == "if" and e.func is bv and isinstance(e.node, ast.If):
+            t = uncopy(e.target)
+            ds = disjuncts(t)
+            fails = any(isinstance(x, ast.Call) and self_attr(x.func) == "_fail_validation" for st in e.node.body for x in ast.walk(st)) or \
+                any(isinstance(st, ast.Raise) for st in e.node.body)
+            is_or = len(ds) == 2
+            for d in ds:
+                d0 = strip_cast(d)
+                red = ext_name(d0) in ("jax.numpy.any", "numpy.any", "builtins.any")
+                c = strip_cast(d0.args[1][0]) if red and d0.args[1] else d0
+                if c.kind == "cmp" and c.args[0] in ("<", "<=", ">", ">="):
+                    op, a, b = c.args
+                    bound = None
+                    for side, other in ((b, a), (a, b)):
+                        if side.kind == "attr" and side.args[0] is self_b and side.args[1].lstrip("_") in ("minimum", "maximum") and contains(other, valb):
+                            bound = side.args[1].lstrip("_")
+                            if side is a:  # bound written on the left: normalise to `value OP bound`
+                                op = {"<": ">", ">": "<", "<=": ">=", ">=": "<="}[op]
+                    if bound:
+                        found[bound] = (op, red)
     res.add("C16.R4", bv.loc(), "specs.BoundedArray.validate", "raises iff any(value < minimum) or any(value > maximum) (inclusive bounds)",
-            found.get("minimum") == ("Lt", True) and found.get("maximum") == ("Gt", True) and fails and is_or,
+            found.get("minimum") == ("<", True) and found.get("maximum") == (">", True) and fails and is_or,
             f"comparators {found}; joined by or: {is_or}; leads to failure: {fails}")
     # ------------------------------------------------------------------ R5 generate / nested spec
     binit = classes["BoundedArray"].methods["__init__"]
@@ -419,3 +433,69 @@ def _pure_relay(e: ast.expr):
     if isinstance(e, ast.Call) and ast.unparse(e.func).split(".")[-1] in ("broadcast_to", "asarray", "array") and e.args:
         return _pure_relay(e.args[0])
     return None
+
+
+def eq_facts_vfg(tree, ci: ClassInfo, eq: FuncInfo):
+    """({attribute: reduced-before-truth-use?}, guard class name) from the value-flow graph of __eq__ --
+    operator and functional forms (==, jnp.equal, array_equal, .all(), jnp.all) are all normalised."""
+    v = VFG(tree, Model(tree))
+    self_t = mk("self", ci.qual)
+    other = mk("param", eq.qual, eq.params[1])
+    r = uncopy(v.apply_func(eq, self_t, ci, [other], {}, None, None))
+    alts = [x for x in (r.args[0] if r.kind == "phi" else (r,)) if not (x.kind == "ext" and x.args[0].endswith("NotImplemented"))]
+    guard = None
+    for e in v.events:
+        if e.kind == "py_branch" and e.target is not None:
+            for n in deps(e.target):
+                if ext_name(n) == "builtins.isinstance" and len(n.args[1]) == 2 and n.args[1][0] is other and n.args[1][1].kind == "cls":
+                    guard = n.args[1][1].args[0].split(".")[-1]
+    compared: Dict[str, bool] = {}
+
+    def pair(a: T, b: T):
+        for x, y in ((a, b), (b, a)):
+            x0, y0 = strip_cast(x), strip_cast(y)
+            if x0.kind == "attr" and x0.args[0] is self_t and y0.kind == "attr" and y0.args[0] is other \
+                    and x0.args[1].lstrip("_") == y0.args[1].lstrip("_"):
+                return x0.args[1].lstrip("_")
+        return None
+
+    def walk(t: T, truth_ctx: bool):
+        """truth_ctx: t's own truth value is used (and-chain / not / bool()) without a reduction in between."""
+        t0 = t
+        if t.kind == "bool":
+            for x in t.args[1]:
+                walk(x, True)
+            return
+        if t.kind == "un" and t.args[0] == "not":
+            walk(t.args[1], True)
+            return
+        if t.kind == "bin" and t.args[0] in ("&", "|"):
+            walk(t.args[1], truth_ctx)
+            walk(t.args[2], truth_ctx)
+            return
+        n = ext_name(t)
+        if n == "builtins.bool" and t.args[1]:
+            walk(t.args[1][0], True)
+            return
+        if n in ("jax.numpy.all", "numpy.all", "jax.numpy.any", "builtins.all") and t.args[1]:
+            walk(t.args[1][0], False)
+            return
+        if n in ("jax.numpy.array_equal", "numpy.array_equal") and len(t.args[1]) == 2:
+            a = pair(*t.args[1])
+            if a:
+                compared[a] = compared.get(a, True) and True
+            return
+        if n == "jumanji.testing.pytrees.is_equal_pytree":
+            return
+        if t.kind == "cmp" and t.args[0] == "==":
+            a = pair(t.args[1], t.args[2])
+            if a:
+                compared[a] = compared.get(a, True) and (not truth_ctx)
+            return
+        if t.kind == "choice":
+            for x in t.args[2]:
+                walk(x, truth_ctx)
+
+    for a in alts:
+        walk(a, True)
+    return compared, guard
